@@ -591,8 +591,16 @@ func (g *FuncGen) mathOp(op token.Token, a, b Val) Val {
 	}
 	switch op {
 	case token.QUO:
+		if a.GT != nil {
+			// Go integer division truncates toward zero
+			return Val{T: fmt.Sprintf("(ite (>= %s 0) (div %s %s) (- (div (- %s) %s)))", a.T, a.T, b.T, a.T, b.T), S: SInt, GT: a.GT}
+		}
 		return Val{T: fmt.Sprintf("(div %s %s)", a.T, b.T), S: SInt, GT: a.GT}
 	case token.REM:
+		if a.GT != nil {
+			// Go integer: remainder has the sign of the dividend
+			return Val{T: fmt.Sprintf("(ite (>= %s 0) (mod %s %s) (- (mod (- %s) %s)))", a.T, a.T, b.T, a.T, b.T), S: SInt, GT: a.GT}
+		}
 		return Val{T: fmt.Sprintf("(mod %s %s)", a.T, b.T), S: SInt, GT: a.GT}
 	}
 	g.unsup("operator %s on mathematical integers", op)
@@ -937,6 +945,22 @@ func (g *FuncGen) trCall(env *Env, x *ECall) Val {
 		}
 		t, _ := g.specType(tyText, env.pkg)
 		return Val{T: eq(fmt.Sprintf("(i_typ %s)", a.T), fmt.Sprint(c.typeTag(t))), S: SBool, GT: types.Typ[types.Bool]}
+	case "coffsetof", "coffsetof6", "csizeof", "csizeof6":
+		// a C-side layout fact (clang -target bpf over the repo's headers), usable as an integer literal in contracts
+		var sargs []string
+		for _, a := range x.Args {
+			s, ok := strArg(a)
+			if !ok {
+				g.unsup("%s needs string arguments", x.Fun)
+			}
+			sargs = append(sargs, s)
+		}
+		n, err := cLayoutQuery(g.prog, x.Fun, sargs)
+		if err != nil {
+			g.unsup("%s: %v", x, err)
+		}
+		c.note("C side: " + x.String() + " = " + n.String() + " (clang -target bpf, stub libbpf headers)")
+		return Val{S: "UNTYPED:" + n.String()}
 	case "arrayOf":
 		// arrayOf(s): identity of the backing array of slice s (0 for a nil slice)
 		a := g.tr(env, x.Args[0])
@@ -1115,6 +1139,10 @@ func (g *FuncGen) defineSpecFunc(sf *SpecFunc, pkg *types.Package) {
 	if sf.Body == nil {
 		c.decl(fmt.Sprintf("(declare-fun sf_%s (%s) %s)", sf.Name, strings.Join(sorts, " "), rs))
 		c.note("uninterpreted spec function " + sf.Name)
+		if len(sf.Params) == 0 {
+			// an unknown environment constant (e.g. the host byte order): show its value in counterexamples
+			g.modelVars = append(g.modelVars, ModelVar{"<environment> " + sf.Name + "()", "sf_" + sf.Name})
+		}
 		return
 	}
 	if g.isOpaque(sf.Name) {
